@@ -373,7 +373,8 @@ def sort_cases():
     mk = [[b'rpush', b'l', b'3', b'1', b'2', b'1'], [b'zadd', b'z', b'1', b'3', b'2', b'1', b'3', b'2'], [b'sadd', b's', b'7'],
           [b'mset', b'w_1', b'30', b'w_2', b'20', b'w_3', b'10', b'd_1', b'one', b'd_2', b'two', b'w_1->', b'1', b'w_2->', b'3', b'w_3->', b'2', b'h_1->f->', b'9'],
           [b'hset', b'h_1', b'f', b'5', b'', b'50', b'f->', b'7'], [b'hset', b'h_2', b'f', b'4', b'', b'40'], [b'hset', b'h_3', b'f', b'6', b'', b'60'],
-          [b'hset', b'w_1', b'', b'100'] if False else [b'hset', b'hh_1', b'', b'1']]
+          [b'hset', b'w_1', b'', b'100'] if False else [b'hset', b'hh_1', b'', b'1'],
+          [b'rpush', b'e_1', b'x'], [b'set', b'e_2', b'E2'], [b'sadd', b'e_7', b'm']]
     bys = [[], [b'by', b'nosort'], [b'by', b'w_*'], [b'by', b'h_*->f'], [b'by', b'nosort', b'by', b'w_*'], [b'by', b'w_*', b'by', b'nosort'], [b'by', b'h_*->'], [b'BY', b'nokey_*'], [b'by', b'w_*->'], [b'by', b'h_*->f->'], [b'by', b'->*']]
     orders = [[], [b'desc'], [b'asc'], [b'alpha'], [b'alpha', b'desc']]
     limits = [[], [b'limit', b'0', b'2'], [b'limit', b'1', b'-1'], [b'limit', b'2', b'5'], [b'limit', b'9', b'1'], [b'limit', b'-1', b'2']]
@@ -385,6 +386,9 @@ def sort_cases():
             yield mk + [[b'sort', src] + by + od + lim + gt]
         for by, od in itertools.product(bys, orders):
             yield mk + [[b'sort', src] + by + od + [b'store', b'dst'], [b'lrange', b'dst', b'0', b'-1'], [b'type', b'dst']]
+        # GET through a key that is missing or holds another type (nil; stored as the empty string), with and without STORE
+        for gt, od in itertools.product(([b'get', b'e_*'], [b'get', b'e_*', b'get', b'#'], [b'get', b'd_*'], [b'get', b'e_*->f'], [b'get', b'h_*->nofield'], [b'by', b'e_*', b'get', b'e_*']), orders[:2]):
+            yield Always(mk + [[b'sort', src] + gt + od, [b'sort', src] + gt + od + [b'store', b'dst'], [b'lrange', b'dst', b'0', b'-1'], [b'type', b'dst']])
     yield mk + [[b'sort', b'w_1'], [b'sort', b'h_1', b'by', b'nosort'], [b'sort', b'l', b'limit', b'0'], [b'sort', b'l', b'limit', b'a', b'1'], [b'sort', b'l', b'foo'],
                 [b'rpush', b'bad', b'1', b'x'], [b'sort', b'bad'], [b'sort', b'bad', b'alpha'], [b'sort', b'bad', b'by', b'nosort'], [b'sort', b'bad', b'store', b'dst2'], [b'exists', b'dst2']]
 
